@@ -46,6 +46,19 @@ def check_stream(ctx, label, ops_path, impl_path, use_oracle=True, sample=False)
     return broken
 
 
+def hist_total(ctx, res, key):
+    """sum of the HIST lines (operation:result -> count) of all shards of a leg: the OK/error histogram of the leg"""
+    tot = {}
+    for rc, out in res:
+        for l in out.splitlines():
+            if l.startswith("HIST "):
+                for kv in l.split()[2:]:
+                    k, _, v = kv.rpartition("=")
+                    if v.isdigit():
+                        tot[k] = tot.get(k, 0) + int(v)
+    ctx.corr[key] = " ".join("%s=%d" % kv for kv in sorted(tot.items()))
+
+
 def first_diff(a, b):
     pa, pb = a.split(" | "), b.split(" | ")
     for x, y in zip(pa, pb):
@@ -96,13 +109,19 @@ RACE_WHAT = {
 }
 
 
-def tombstone_race(ctx, binr):
-    """audit B6: the -race build of the harness runs POST /topic/tombstone against GET /lookup, /nodes, /debug; the Go race
-    detector is the oracle. A report naming (*Producer).Tombstone is the known finding race:tombstone-unlocked-write; any
-    other data race report is a finding of its own."""
+def tombstone_run(ctx, binr):
+    """audit B6: the -race build of the harness runs POST /topic/tombstone against GET /lookup, /nodes, /debug"""
     if not binr:
+        return None
+    return e4.run_test(ctx, binr, "TestVerifE4TombstoneRace", {"VERIF_MS": ctx.budget(1000, 4000)}, 300)
+
+
+def tombstone_eval(ctx, res):
+    """The Go race detector is the oracle. A report naming (*Producer).Tombstone is the known finding
+    race:tombstone-unlocked-write; any other data race report is a finding of its own."""
+    if res is None:
         return ["harness harness/e4 does not compile with -race against the current tree"]
-    rc, out = e4.run_test(ctx, binr, "TestVerifE4TombstoneRace", {"VERIF_MS": ctx.budget(1000, 4000)}, 300)
+    rc, out = res
     m = [l for l in out.splitlines() if l.startswith("TOMBRACE ")]
     if not m:
         ctx.log("tombstone race leg failed:\n" + out[-1500:])
@@ -128,15 +147,19 @@ def tombstone_race(ctx, binr):
     return []
 
 
-def races(ctx, binp, only=None):
+def races_run(ctx, binp):
+    return e4.run_leg(ctx, binp, "TestVerifE4Races", {"VERIF_MS": ctx.budget(1200, 4000)}, 300)
+
+
+def races(ctx, binp, only=None, res=None):
     """known findings (concurrency): replayed on every run, reported only if they reproduce"""
-    rc, out = e4.run_leg(ctx, binp, "TestVerifE4Races", {"VERIF_MS": ctx.budget(1200, 4000)}, 300)
+    rc, out = res if res is not None else races_run(ctx, binp)
     seen = {}
     for l in out.splitlines():
         w = l.split()
         if len(w) == 4 and w[0] == "RACE":
             seen[w[1]] = (int(w[2].split("=")[1]), int(w[3].split("=")[1]))
-    ctx.corr["races"] = {k: "bad=%d rounds=%d" % v for k, v in seen.items()}
+    ctx.corr.setdefault("races", {}).update({k: "bad=%d rounds=%d" % v for k, v in seen.items()})
     if rc != 0:
         ctx.log("race harness failed:\n" + out[-1500:])
         return ["race harness exit %s" % rc]
@@ -179,7 +202,7 @@ def run(ctx):
         names = [l.split()[1] for l in e4.read_lines(ctx.replay_in) if l.startswith("race ")]
         broken += races(ctx, binp, only=names)
         if "tombstone-unlocked-write" in names:
-            broken += tombstone_race(ctx, race_bin.result())
+            broken += tombstone_eval(ctx, tombstone_run(ctx, race_bin.result()))
         print("races: %s" % ctx.corr.get("races"))
     elif binp and ctx.replay_in:
         broken += replay(ctx, binp, os.path.abspath(ctx.replay_in), "replay")
@@ -189,8 +212,8 @@ def run(ctx):
             print("impl : " + l[:400])
             print("model: " + (ml[k][:400] if k < len(ml) else "<missing>"))
     elif binp:
-        broken += races(ctx, binp)
-        broken += tombstone_race(ctx, race_bin.result())
+        # the race legs (free-running goroutines, time-boxed) run next to the sequential legs; evaluated at the end
+        race_res = pool.submit(lambda: (races_run(ctx, binp), tombstone_run(ctx, race_bin.result())))
         for f in sorted(glob.glob(os.path.join(ROOT, "corpus", "C14", "*.ops"))):
             broken += replay(ctx, binp, f, "corpus:" + os.path.basename(f))
         nsh = 8
@@ -209,6 +232,26 @@ def run(ctx):
                 e4.hist_lines(ctx, out, "exhaustive_full_len%d_shard0" % L)
             broken += check_stream(ctx, "exh_%d" % s, os.path.join(ctx.work, "exh_%d.ops" % s),
                                    os.path.join(ctx.work, "exh_%d.impl" % s), sample=(s == 0))
+        hist_total(ctx, res, "exhaustive_full_len%d_all_shards" % L)
+        # audit B27: the same alphabet and length from the state in which both producers have IDENTIFYed (from the empty
+        # registry ~99 %% of the REGISTER/UNREGISTER steps are E_INVALID "client must IDENTIFY"): a strided 1/8 sample in
+        # the quick tier, all 157 464 histories in the thorough tier
+        stride = ctx.budget(8 * nsh, nsh)
+        jobs = [(binp, "TestVerifE4Exhaustive", {"VERIF_LEN": L, "VERIF_SHARD": (s * (stride // nsh) + ctx.seed) % stride,
+                                                  "VERIF_NSHARD": stride, "VERIF_ALPHA": "full", "VERIF_PRE": "ident"}, 900)
+                for s in range(nsh)]
+        res = e4.run_parallel(ctx, jobs, workers=nsh)
+        for s, (rc, out) in enumerate(res):
+            sh = jobs[s][2]["VERIF_SHARD"]
+            if rc != 0:
+                ctx.log("exhaustive(identified) shard %d failed:\n%s" % (sh, out[-1500:]))
+                broken.append("exhaustive(identified) harness shard %d exit %s" % (sh, rc))
+                continue
+            if s == 0:
+                e4.hist_lines(ctx, out, "exhaustive_full_len%d_identified_shard" % L)
+            broken += check_stream(ctx, "exhp_%d" % sh, os.path.join(ctx.work, "exhp_%d.ops" % sh),
+                                   os.path.join(ctx.work, "exhp_%d.impl" % sh))
+        hist_total(ctx, res, "exhaustive_full_len%d_identified_all_shards" % L)
         # longer histories over the reduced alphabet (strided sample in the quick tier)
         jobs = []
         L2 = 4
@@ -296,6 +339,9 @@ def run(ctx):
         else:
             e4.hist_lines(ctx, out, "concurrent")
             broken += check_stream(ctx, "conc", os.path.join(ctx.work, "conc.ops"), os.path.join(ctx.work, "conc.impl"))
+        r1, r2 = race_res.result()
+        broken += races(ctx, binp, res=r1)
+        broken += tombstone_eval(ctx, r2)
     if (ctx.broken_ties or broken) and not ctx.violations:
         ctx.broken_without_input(ctx.broken_ties + broken,
                                  "search: %d generated (operation, answers) cases were all as the plain registry "
